@@ -27,6 +27,9 @@ def item_text(combo, subset, placement, first, entry):
         item = f"pub struct Ty {body}"
     elif placement == "enum":
         item = f"pub enum Ty {{ V0 {body}, V1 }}"
+    elif placement == "enumm":
+        # an explicit discriminant on the first variant only, equal to the position of the second one
+        item = f"#[repr(u8)] pub enum Ty {{ V0 {body} = 1, V1, V2({V}), V3 }}"
     else:
         # explicit discriminants that decrease in declaration order: every derived order is still by declaration
         item = f"#[repr(u8)] pub enum Ty {{ V0 {body} = 7, V1 = 3, V2({V}) = 5, V3 = 0 }}"
@@ -43,7 +46,15 @@ def nan_field(subset):
 
 def code_for(combo, subset, placement, first, entry):
     item, tl = item_text(combo, subset, placement, first, entry)
-    head = f"#[::derive_ex::derive_ex({tl})]\n" if entry == "attr" else f"#[derive(::derive_ex::Ex)]\n#[derive_ex({tl})]\n"
+    parts = [tl]
+    if len(subset) >= 2 and (len(tl) + len(str(combo))) % 3 == 0:
+        # the trait list split over two stacked attributes: the helper attributes still apply to both halves
+        k = 1 + len(str(combo)) % (len(subset) - 1)
+        parts = [", ".join(subset[:k]), ", ".join(subset[k:])]
+    if entry == "attr":
+        head = f"#[::derive_ex::derive_ex({parts[0]})]\n" + "".join(f"#[derive_ex({x})]\n" for x in parts[1:])
+    else:
+        head = "#[derive(::derive_ex::Ex)]\n" + "".join(f"#[derive_ex({x})]\n" for x in parts)
     ctor = "Ty" if placement == "struct" else "Ty::V0"
     # the attributed field gets the 6-value domain (3 key classes), the plain one 3 values
     da, db = (F0, F1) if first else (F1, F0)
@@ -53,7 +64,7 @@ def code_for(combo, subset, placement, first, entry):
         vals = [f"{ctor} {{ f0: {a}, f1: {b} }}" for a in da for b in db]
     if placement == "enum":
         vals.append("Ty::V1")
-    elif placement == "enumd":
+    elif placement in ("enumd", "enumm"):
         vals += ["Ty::V1", f"Ty::V2({V}(0))", f"Ty::V2({V}(1))", "Ty::V3"]
     obs = [f"let vals: ::std::vec::Vec<Ty> = vec![{', '.join(vals)}];"]
     if "PartialEq" in subset:
@@ -152,7 +163,7 @@ def run(rep, tier, rng):
             # helper attributes of traits that are not derived are foreign attributes: outside this property
             if any(o != "-" and not any(t in sub for t in M.OWNS[a]) for a, o in zip(M.ATTRS, combo)):
                 continue
-            for placement in ("struct", "enum", "enumd"):
+            for placement in ("struct", "enum", "enumd", "enumm"):
                 first = (ci + si) % 2 == 0
                 entry = "attr" if (ci // 2 + si) % 2 == 0 else "derive"
                 item, tl = item_text(combo, sub, placement, first, entry)
@@ -190,7 +201,13 @@ def run(rep, tier, rng):
         if c.status == "inconclusive":
             continue
         if c.status == "compile_fail":
-            rep.count("accepted_but_rustc_refuses")   # a refusal at compile time for this property; judged by C20
+            # The program is nothing but the type (V fields, library key / by functions) and observation code that compiles
+            # for every accepted point on the unchanged tree: a point the expander accepts but rustc refuses has no
+            # impls to be coherent - reported (C20 judges the same thing on its own programs).
+            rep.count("accepted_but_rustc_refuses")
+            d = next((d for d in c.diags if d["level"] == "error"), {"code": None, "message": "?"})
+            sigs.setdefault(f"C02|accepted-point-does-not-compile|{d['code']}|{(d['message'] or '')[:40]}", []).append(
+                (c, f"accepted by the expander, refused by rustc ({d['code']}: {(d['message'] or '')[:120]})"))
             continue
         rep.count("types_run")
         if any(e.get("k") == "panic" for e in c.events):
@@ -207,7 +224,8 @@ def run(rep, tier, rng):
     for sig, lst in list(sigs.items())[:40]:
         c, what = lst[0]
         again = C.compile_single(c.code, header=HEADER)
-        if again.status == "ok" and (check_laws(again.events, c.meta["pt"][1]) or any(e.get("k") == "panic" for e in again.events)):
+        if (again.status == "compile_fail" and "does-not-compile" in sig) or \
+                (again.status == "ok" and (check_laws(again.events, c.meta["pt"][1]) or any(e.get("k") == "panic" for e in again.events))):
             rep.violation(sig, f"{what}: {c.code.splitlines()[0]} {c.code.splitlines()[1][:200]} [{len(lst)} cases]",
                           {"pt": [list(c.meta["pt"][0]), c.meta["pt"][1], c.meta["pt"][2], c.meta["pt"][3], c.meta["pt"][4]], "code": c.code})
         else:
@@ -235,6 +253,9 @@ def run(rep, tier, rng):
 def replay(rep, path):
     j = json.load(open(path))["replay"]
     c = C.compile_single(j["code"], header=HEADER)
+    if c.status == "compile_fail":
+        print(f"VIOLATION property=C02 replay={path}\n  accepted by the expander, refused by rustc")
+        return 1
     if c.status == "ok" and check_laws(c.events, j["pt"][1]):
         print(f"VIOLATION property=C02 replay={path}\n  {check_laws(c.events, j['pt'][1])}")
         return 1
